@@ -307,6 +307,20 @@ func c02Scenario(c *Ctx, r *zsimrt.Run, L *Layout, pinned []map[string]int) (*Vi
 			}
 		}
 	}
+	if L.Entry == "cli" && L.Stdin == "" && r.Chance("cli-options-twice", 1, 3) {
+		r.ResetPolicies()
+		r.SetPolicy(zsimrt.OrdSorted)
+		if a, b, ok := RunLoadCliTwice(L, Materialise(L)); ok {
+			c.Count("cli-options-reloads", 1)
+			if clause, key := c02Compare(a, b); clause != "" {
+				sc, _ := json.Marshal(map[string]any{"layout": L, "kind": "cli-options-twice", "first": a.Kind(), "second": b.Kind(), "second_err": b.Err})
+				v := Violation{Property: "C02", Clause: "second-load-with-same-options-differs", Key: classKey("second-load-with-same-options-differs/"+clause, key), Engine: "c02", Scenario: sc,
+					Detail: fmt.Sprintf("one cli.ProjectOptions value, LoadProject called twice: first %s, second %s %s", a.Kind(), b.Kind(), truncate(b.Err, 200))}
+				c.Violate(v)
+				return &v, ref
+			}
+		}
+	}
 	nonCanon := 0
 	for _, n := range r.NonCanon {
 		nonCanon += n
